@@ -378,7 +378,7 @@ def run_cross(task, tier, seed, col):
 # ------------------------------------------------------------------------------------- deep-copied registries evolve independently
 
 BATTERY = [("convert", 1, "inch", "centimeter"), ("convert", 1, "pound", "gram"), ("root", "newton"), ("compat", "meter"), ("name", "km"), ("sysmembers", "mks"), ("group", "Textile"),
-           ("format", 3, "kilometer", "~P"), ("base", "inch"), ("ctx", 500, "nanometer", "terahertz"), ("newunit", "smoot"), ("newunit", "hexameter"), ("newunit", "metro_x")]
+           ("format", 3, "kilometer", "~P"), ("base", "inch"), ("ctx", 500, "nanometer", "terahertz"), ("newunit", "smoot"), ("newunit", "hexameter"), ("newunit", "metro_x"), ("newunit", "zollstock")]
 
 
 def _battery(reg):
@@ -413,7 +413,7 @@ def _battery(reg):
     return out
 
 
-EDITS = ["define_unit", "define_prefix", "redefine_ctx", "group_add", "default_system", "default_format", "enable_context", "add_context", "define_alias", "system_group"]
+EDITS = ["define_unit", "define_prefix", "redefine_ctx", "group_add", "default_system", "default_format", "enable_context", "add_context", "define_alias", "system_group", "preprocessor"]
 
 
 def _edit(reg, e):
@@ -444,6 +444,8 @@ def _edit(reg, e):
         reg.define("@alias meter = metro_x")
     elif e == "system_group":
         reg.get_system("mks").add_groups("Textile")
+    elif e == "preprocessor":
+        reg.preprocessors.append(lambda s_: s_.replace("zollstock", "inch"))
 
 
 def case_deepcopy(case, col=None):
